@@ -4,6 +4,11 @@ out/PROPERTY.json, and one prompt file <root>/PROMPT-<Cxx>.txt per property for 
 The prompt lists the ideas already stored under seeded/ so that new changes differ from them."""
 import json, os, glob, subprocess, sys
 root, n = sys.argv[1], sys.argv[2]
+style = sys.argv[3] if len(sys.argv) > 3 else "mixed"
+STYLES = {
+ "mixed": "Make them the kind of mistake a maintainer could plausibly make in a refactoring, an optimisation or a feature addition, and make them DIFFERENT IN KIND from each other: for example one plain slip (wrong sign, swapped arguments, off-by-one, dropped branch, wrong constant or unit, wrong comparison), one that needs a particular combination of features, configuration or call order to show, and one that is confined to some region of the input space (a class of geometries, conventions, ranges, sizes) that is ordinary but easy to overlook.",
+ "surface": "Make them the kind of mistake a maintainer could plausibly make, and spread them over the API SURFACE that the property reaches: (1) one in a less used way of doing the same thing (another constructor, another entry point or overload, a convenience wrapper, a trait implementation of a wrapper type, a conversion helper, a default value) while the common way stays correct; (2) one in code shared with other modules (a utility function, a constant, a trait default method, an error path) whose effect on THIS property is indirect; (3) one that changes WHAT is returned in a way that still looks plausible (order, duplicates, one element more or fewer, a value that is right modulo a period or a sign convention, a flag or a field of the result) rather than making the result grossly wrong.",
+}
 os.makedirs(root, exist_ok=True)
 props = {}
 for l in open('/verif/properties.jsonl'):
@@ -23,7 +28,7 @@ TASK: produce @@N@@ different realistic code changes to the crate's source under
   (1) BREAK the property (some clause of its statement, for some input in its quantifier - an input that the quantifier really covers, not a boundary case the statement leaves open),
   (2) still compile, and
   (3) still pass the existing test suite:   cd @@DIR@@ && CARGO_TARGET_DIR=@@DIR@@/target cargo test --offline --no-default-features --features allow_filesystem,collisions,stroke_planning --lib 2>&1 | grep "test result"   (66 tests must pass; first build takes a few minutes; there is no network).
-Make them the kind of mistake a maintainer could plausibly make in a refactoring, an optimisation or a feature addition, and make them DIFFERENT IN KIND from each other: for example one plain slip (wrong sign, swapped arguments, off-by-one, dropped branch, wrong constant or unit, wrong comparison), one that needs a particular combination of features, configuration or call order to show, and one that is confined to some region of the input space (a class of geometries, conventions, ranges, sizes) that is ordinary but easy to overlook.
+@@STYLE@@
 Prefer clauses of the statement and parts of the quantifier that the ideas below do NOT touch. Do not change tests, Cargo.toml, or anything guarded by `cfg(opw_verif)`; keep each change small. Do not use `git stash` (the stash is shared between worktrees); use `git diff > file`, `git checkout -- .`, `git apply file`.
 
 These ideas were already produced by others for this property - do NOT repeat them or close variants of them:
@@ -41,5 +46,5 @@ for pid in props:
     os.makedirs(os.path.join(d, "out"), exist_ok=True)
     json.dump(props[pid], open(os.path.join(d, "out", "PROPERTY.json"), "w"), indent=1)
     kn = '\n'.join('  - ' + w for w in known.get(pid, [])) or '  (none yet)'
-    open(os.path.join(root, 'PROMPT-%s.txt' % pid), 'w').write(base.replace('@@DIR@@', d).replace('@@KNOWN@@', kn).replace('@@N@@', n))
+    open(os.path.join(root, 'PROMPT-%s.txt' % pid), 'w').write(base.replace('@@DIR@@', d).replace('@@KNOWN@@', kn).replace('@@N@@', n).replace('@@STYLE@@', STYLES[style]))
 print(len(props), "prompts under", root)
